@@ -37,6 +37,17 @@ structure Policy where
   /-- xmpp_conn_set_certfail_handler -/
   handler : Option Handler := none
 
+/-- `xmpp_conn_set_flags` refuses a word in which DISABLE_TLS (1) comes with MANDATORY_TLS (2),
+    LEGACY_SSL (4) or TRUST_TLS (8) -/
+def flagConflict (w : Nat) : Bool :=
+  w % 2 == 1 && (w / 2 % 2 == 1 || w / 4 % 2 == 1 || w / 8 % 2 == 1)
+
+/-- `xmpp_conn_set_flags` as far as this property reads it: an accepted word REPLACES the trust and
+    disable bits, a refused one changes nothing -/
+def setFlags (p : Policy) (w : Nat) : Policy × Bool :=
+  if flagConflict w then (p, false)
+  else ({ p with trust := w / 8 % 2 == 1, disabled := w % 2 == 1 }, true)
+
 /-! ### tls_openssl.c -/
 
 /-- `tls_new`: the verification configuration of the SSL object.
@@ -206,5 +217,8 @@ def probe (s : Sess) (gated : Bool) : Sess :=
 
 /-- `tick` op: time passes, the loop runs -/
 def tick (s : Sess) : Sess := writePass s
+
+/-- `drop` op: `conn_disconnect` (what every fatal error ends in), then the loop runs -/
+def drop (s : Sess) : Sess := writePass (connDisconnect s)
 
 end Strophe.TlsTrust
